@@ -46,6 +46,8 @@ type Interp struct {
 	output      Str
 	th          *threadState
 	lastPanic   *targetPanic
+	ptrIDs      map[interface{}]uint64
+	syncMaps    map[*Value]*Map
 
 	// statistics across runs
 	funcsEntered map[string]int
